@@ -2,7 +2,7 @@
 import vlib
 from checkflow import Interactive
 from props import hc_common as H
-from gen_hc import Sim, Net, pick_cfg, random_traffic, pick_len
+from gen_hc import Sim, Net, pick_cfg, random_traffic, pick_len, F
 
 PROP = "C20"
 LAKE_TARGETS = ["Uflow.Props.C20", "Uflow.Props.C20Hc", "uflow_driver"]
@@ -30,7 +30,25 @@ def streams(rng, tier, ctx):
             cfg = pick_cfg(r)
             if i % 3 == 0:
                 cfg["pw"] = r.pick([4, 16]); cfg["allocA"] = cfg["allocB"] = r.pick([3 * 1448, 8000, 20000])
-            sim = H.lossy_scenario(r, it, tier, cfg=cfg, max_len=min(6000, cfg["allocA"]))
+            if i % 4 == 1:
+                # allocation stalls with a TimeSensitive packet at the head of the send queue: the peer's limit is a few fragments,
+                # Reliable packets fill it exactly, TimeSensitive and other packets queue up behind, acknowledgements come late or are lost
+                k = r.pick([1, 2, 3]); cfg["allocA"] = cfg["allocB"] = k * F - r.pick([0, 0, 1])
+                cfg["bwA"] = cfg["bwB"] = r.pick([200_000, 2_000_000]); cfg["pw"] = r.pick([16, 64])
+                sim = Sim(r, cfg, inter=it)
+                lat = r.pick([1_000_000, 20_000_000])
+                netA = Net(latency=lat, loss=r.pick([0, 100])); netB = Net(latency=lat, loss=r.pick([0, 200, 500]))
+                def tr(sim, ep):
+                    if ep == "A" and sim.tick < 60 and sim.tick % r.pick([2, 3, 5]) == 0:
+                        for _ in range(k):
+                            sim.send("A", r.below(3), r.pick([3, 3, 2]), r.pick([F, F - 1, 700]))
+                        sim.send("A", r.below(3), 0, r.pick([10, 100, 700]))
+                        if r.chance(1, 2):
+                            sim.send("A", r.below(3), r.pick([0, 1, 3]), r.pick([10, 100]))
+                sim.run(r.range(50, 90), r.pick([1_000_000, 5_000_000, 16_000_000]), netA, netB, tr, probe_every=1)
+                sim.meta = {"cfg": cfg}
+            else:
+                sim = H.lossy_scenario(r, it, tier, cfg=cfg, max_len=min(6000, cfg["allocA"]))
             H.finish(sim, drain=True, max_ticks=500)
             if sim.drained and not sim.dead:
                 # packets sent once and lost (Unreliable / TimeSensitive) stay in the send window - unacknowledged, hence counted -
